@@ -17,6 +17,9 @@ DEVS = [
     {"dev": {"k": "false_reported_unknown_label"}, "need_disclosed": 1},
     {"dev": {"k": "false_reported_swap"}, "need_disclosed": 2},
     {"dev": {"k": "disc_reverse"}, "need_disclosed": 2},
+    # degenerate proofs under which the disclosed scalars are bound to nothing signed
+    {"dev": {"k": "identity"}, "need_disclosed": 1},
+    {"dev": {"k": "random_e2"}, "need_disclosed": 1},
     {"dev": {"k": "reported_reorder"}, "need_disclosed": 2},
     {"dev": {"k": "reported_reorder"}, "need_disclosed": 3},
     {"dev": {"k": "disc_dup"}, "need_disclosed": 1},
